@@ -448,7 +448,7 @@ fn sink_run(schema: &Schema, p: &Pres, expected: &[u8], mut decide: impl FnMut(u
 }
 
 /// Every regular "at most k bytes per call" schedule, k = 1..=12, then every schedule with at most
-/// two deviations from "accept everything" (short writes from `sink_menu`, Interrupted, hard error, Ok(0)).
+/// two deviations from "accept everything" (short writes from `sink_menu`, Interrupted, hard error of kind Other or WouldBlock, Ok(0)).
 fn sink_part(a: usize, schema: &Schema, p: &Pres, expected: &[u8], t: &Tier, cover: &mut Cover, viol: &mut dyn FnMut(&str, String, Option<usize>)) {
 	for k in 1..=12usize {
 		cover.impl_runs += 1;
@@ -485,7 +485,7 @@ fn sink_part(a: usize, schema: &Schema, p: &Pres, expected: &[u8], t: &Tier, cov
 			cover.nontrivial.insert(hash64(&(a, "sink-dev", &choices, expected)));
 		}
 		let log = log.borrow();
-		if log.iter().any(|l| l.contains("HardError") || l.contains("Zero")) {
+		if log.iter().any(|l| l.contains("HardError") || l.contains("WouldBlock") || l.contains("Zero")) {
 			cover.count("sink_hard_fault_injected", 1);
 		} else if !log.is_empty() {
 			cover.count("sink_deviating_schedule_without_fault", 1);
